@@ -30,13 +30,13 @@ import (
 
 // SKey is one key of the cached set.
 type SKey struct {
-	Name  string // e.g. "rsa2048", "p256", "dsa2048", "ed25519"
-	Kind  string // "rsa" | "dsa" | "ecdsa" | "ed25519"
-	Bits  int    // RSA: modulus bits
-	P256  bool   // ECDSA: on P-256
-	Pub   crypto.PublicKey
-	priv  interface{}
-	SPKI  []byte // PKIX DER of the public key when the standard library can marshal it
+	Name string // e.g. "rsa2048", "p256", "dsa2048", "ed25519"
+	Kind string // "rsa" | "dsa" | "ecdsa" | "ed25519"
+	Bits int    // RSA: modulus bits
+	P256 bool   // ECDSA: on P-256
+	Pub  crypto.PublicKey
+	priv interface{}
+	SPKI []byte // PKIX DER of the public key when the standard library can marshal it
 }
 
 // RFC 5246 §7.4.1.4.1 HashAlgorithm codes.
